@@ -413,6 +413,7 @@ def atoms(facts):
     """Decompose facts into atomic (cond, pol) pairs through !, && (when true),
     || (when false)."""
     out = []
+    seen = set()
     stack = [(f.cond, f.pol) for f in facts]
     while stack:
         n, pol = stack.pop()
@@ -431,8 +432,43 @@ def atoms(facts):
             stack.append((n['inner'][0], False))
             stack.append((n['inner'][1], False))
             continue
+        if k == 'DeclRefExpr':
+            # a named boolean that is assigned only by its declaration stands for its initialiser
+            # (`const bool in_bounds = a && b; if (!in_bounds) throw ...`)
+            rd = n.get('referencedDecl') or {}
+            if rd.get('kind') == 'VarDecl' and ((rd.get('type') or {}).get('qualType') or '').replace('const ', '') == 'bool' and rd.get('id') not in seen:
+                init = _single_assignment_init(rd)
+                if init is not None:
+                    seen.add(rd.get('id'))
+                    stack.append((init, pol))   # the named atom itself is kept as well (below)
         out.append((n, pol))
     return out
+
+
+_SA_CACHE = {}
+
+
+def _single_assignment_init(rd):
+    key = (rd.get('id'), rd.get('name'))
+    if key in _SA_CACHE:
+        return _SA_CACHE[key]
+    res = None
+    for d in DECLS.get(rd.get('id'), ()):
+        if d.get('kind') == 'VarDecl' and d.get('name') == rd.get('name') and kids(d):
+            f = enclosing_function(d)
+            if f is None:
+                continue
+            writes = 0
+            for x in walk(body_of(f)):
+                if x.get('kind') in ('BinaryOperator', 'CompoundAssignOperator') and x.get('opcode') in ASSIGN_OPS and (ref_decl(x['inner'][0]) or {}).get('id') == rd.get('id'):
+                    writes += 1
+                if x.get('kind') == 'UnaryOperator' and x.get('opcode') == '&' and (ref_decl(x['inner'][0]) or {}).get('id') == rd.get('id'):
+                    writes += 1
+            if writes == 0:
+                res = kids(d)[-1]
+            break
+    _SA_CACHE[key] = res
+    return res
 
 
 NEG = {'<': '>=', '<=': '>', '>': '<=', '>=': '<', '==': '!=', '!=': '=='}
